@@ -565,3 +565,61 @@ Fixpoint bad_indices {A} (ok : A -> bool) (l : list A) (i : nat) : list nat :=
 
 Definition mismatches {A} (ok : A -> bool) (l : list A) : list nat := bad_indices ok l 0.
 Definition violations {A} (ok : A -> bool) (l : list A) : list nat := bad_indices ok l 0.
+
+(* ------------------------------------------------------------------ automatic numbering
+   apply_run_number(template "<name>_?.<ext>", run_number=None): the "?" becomes "*", the directory is
+   globbed, get_number() reads the trailing digits of every matching stem (0 if there are none), and the
+   new file gets the largest number + 1 (1 if nothing matches).  A matching file is represented by the
+   part of its name the "*" stands for. *)
+
+Definition is_digit_b (c : ascii) : bool :=
+  (Nat.leb 48 (nat_of_ascii c) && Nat.leb (nat_of_ascii c) 57)%bool.
+
+(* (the string is all digits, its value) — int() of a digit string, leading zeros allowed *)
+Fixpoint digits_val (s : string) (acc : nat) : option nat :=
+  match s with
+  | EmptyString => Some acc
+  | String c r => if is_digit_b c then digits_val r (10 * acc + (nat_of_ascii c - 48)) else None
+  end.
+
+(* re.search(r"\d+$", stem): the value of the longest all-digit suffix, None if the stem does not end in a digit *)
+Fixpoint trailing_number (s : string) : option nat :=
+  match s with
+  | EmptyString => None
+  | String c r =>
+      match digits_val (String c r) 0 with
+      | Some v => Some v
+      | None => trailing_number r
+      end
+  end.
+
+Definition get_number (mid : string) : nat :=
+  match trailing_number mid with Some v => v | None => 0 end.
+
+Record auto_cfg := {
+  a_step : nat;        (* next_num = num_list[-1] + a_step *)
+  a_first : nat        (* next_num = a_first when nothing matches *)
+}.
+
+Definition next_number (A : auto_cfg) (mids : list string) : nat :=
+  match mids with
+  | [] => a_first A
+  | _ => fold_right Nat.max 0 (map get_number mids) + a_step A
+  end.
+
+(* the "*" part of the name the new file gets *)
+Definition auto_mid (A : auto_cfg) (mids : list string) : string := dec (next_number A mids).
+
+(* correspondence: a writer called with run_number=None on a directory holding the given matches *)
+Record auto_case := {
+  au_mids : list string;        (* the "*" parts of the matching names present before *)
+  au_new : string;              (* implementation: the "*" part of the returned name *)
+  au_intact : bool;             (* implementation: every file present before still has its bytes *)
+  au_created : nat              (* implementation: number of new files *)
+}.
+
+Definition auto_model_ok (A : auto_cfg) (c : auto_case) : bool :=
+  String.eqb (auto_mid A (au_mids c)) (au_new c).
+
+Definition auto_spec_ok (c : auto_case) : bool :=
+  negb (mem (au_new c) (au_mids c)) && au_intact c && Nat.eqb (au_created c) 1.
